@@ -55,7 +55,9 @@ var NumPayloads = []float64{0, math.Copysign(0, -1), 1, -1, 0.5, 50, 99.99, 100,
 
 // StrPayloads is the pool of string event payloads.
 var StrPayloads = []string{"", "a", "Enter", "ArrowLeft", " ", "é", "日本", "𝄞", "é", `"`, `\`, "a\"b\\c", "\n", "tab\t",
-	strings.Repeat("x", 300), "true", "12", "%v", "slider-1", "//c"}
+	strings.Repeat("x", 300), "true", "12", "%v", "slider-1", "//c",
+	// names of keys as browsers old and new report them, and the same words as ordinary values
+	"Left", "Right", "Up", "Down", "Esc", "Escape", "Del", "Delete", "Spacebar", "Space", "OS", "Meta", "Apps", "Scroll", "Tab", "Backspace", "Shift", "A", "left", "ENTER", "enter", " a ", "Return"}
 
 // Events draws an event script over the given handler names.
 func Events(r *prng.R, handlers []string, maxN int) []core.Event {
